@@ -17,6 +17,7 @@ CASES = [
     Case('sweeper_filters_collocation_params', SWP, "        self.coll: CollBase = params['collocation_class'](**params)", "        self.coll: CollBase = params['collocation_class'](**{k: params[k] for k in ('num_nodes', 'tleft', 'tright', 'quad_type') if k in params})", 'C05.R1', 'Sweeper.__init__', note='node_type is silently dropped'),
     Case('qdelta_generator_without_left_end', 'pySDC/core/sweeper.py', "QDELTA_GENERATORS[qdType](qGen=self.coll.generator, tLeft=self.coll.tleft)", "QDELTA_GENERATORS[qdType](qGen=self.coll.generator)", 'C05.R5', 'Sweeper.buildGenerator', note='seed C05c_3'),
     Case('verlet_end_weights_operands_swapped', 'pySDC/implementations/sweeper_classes/verlet.py', "np.dot(self.coll.weights, self.coll.Qmat[1:, 1:])", "np.dot(self.coll.Qmat[1:, 1:], self.coll.weights)", 'C05.R6', 'verlet', note='seed C05c_2'),
+    Case('collocation_kept_when_selected_parameters_agree', 'pySDC/core/sweeper.py', "        self.coll: CollBase = params['collocation_class'](**params)\n", "        key_ = (params['num_nodes'], params.get('quad_type'))\n        if getattr(self, '_coll_key', None) != key_:\n            self.coll: CollBase = params['collocation_class'](**params)\n            self._coll_key = key_\n", 'C05.R7', 'Sweeper.__init__', note='seed C05d_3'),
     # twins
     Case('twin_local_names', CO, "        Q = np.zeros([num_nodes + 1, num_nodes + 1], dtype=float)\n        Q[1:, 1:] = self.generator.Q\n        self.Qmat = Q", "        Qpad = np.zeros([num_nodes + 1, num_nodes + 1], dtype=float)\n        Qpad[1:, 1:] = self.generator.Q\n        self.Qmat = Qpad", benign=True),
     Case('twin_flag_tuple', CO, "self.left_is_node = self.quad_type in ['LOBATTO', 'RADAU-LEFT']", "self.left_is_node = self.quad_type in ('RADAU-LEFT', 'LOBATTO')", benign=True),
